@@ -210,9 +210,11 @@ def nearPosOf (inp : FindInput) : List Vec3 :=
   (nearOf inp).map (fun i => (allPositions inp.cell inp.pos).getD i Vec3.zero)
 def nearElemOf (inp : FindInput) : List String :=
   (nearOf inp).map (fun i => inp.elems.getD (i % inp.pos.length) "")
+/-- the unit-cell atom of every near atom (`near_indices[·] % len(structure)`) -/
+def nearUcOf (inp : FindInput) : List Nat := (nearOf inp).map (fun i => i % inp.pos.length)
 /-- candidate tuples as positions in the near list -/
 def candsOf (inp : FindInput) : List (List Nat) :=
-  candidates inp.ppos inp.pelems inp.atol (patMax inp) inp.pos.length (nearPosOf inp) (nearElemOf inp)
+  candidates inp.ppos inp.pelems inp.atol (patMax inp) inp.pos.length (nearPosOf inp) (nearElemOf inp) (nearUcOf inp)
 /-- candidate tuples as indices into `allPositions` -/
 def candsAllOf (inp : FindInput) : List (List Nat) :=
   (candsOf inp).map (fun t => t.map (fun k => (nearOf inp).getD k 0))
